@@ -5,6 +5,7 @@ import re
 import shutil
 import subprocess
 import sys
+import threading
 import time
 
 ROOT = os.path.dirname(os.path.dirname(os.path.abspath(__file__)))
@@ -59,18 +60,16 @@ def ensure_gomod():
 _built = {}
 
 
-def build_driver(race=False, tags="verif"):
-    """Builds verifdrv against the current /repo working tree. Returns the binary path."""
-    key = (race, tags)
+def build_driver(race=False, tags="verif", cmd="verifdrv"):
+    """Builds harness/cmd/<cmd> against the current /repo working tree. Returns the binary path."""
+    key = (race, tags, cmd)
     if key in _built:
         return _built[key]
     ensure_gomod()
     os.makedirs(os.path.join(WORKROOT, "bin"), exist_ok=True)
-    out = os.path.join(WORKROOT, "bin", "verifdrv" + ("-race" if race else "") + "-%d" % os.getpid())
-    cmd = ["go", "build", "-tags", tags, "-o", out]
-    if race:
-        cmd.append("-race")
-    cmd.append("./cmd/verifdrv")
+    out = os.path.join(WORKROOT, "bin", cmd + ("-race" if race else "") + "-%d" % os.getpid())
+    gocmd = cmd
+    cmd = ["go", "build", "-tags", tags, "-o", out] + (["-race"] if race else []) + ["./cmd/" + gocmd]
     t0 = time.time()
     p = subprocess.run(cmd, cwd=HARNESS, env=goenv(), capture_output=True, text=True)
     if p.returncode != 0:
@@ -78,6 +77,35 @@ def build_driver(race=False, tags="verif"):
     log("built %s in %.1fs" % (os.path.basename(out), time.time() - t0))
     _built[key] = out
     return out
+
+
+def go_test_overlay(work, pkg, test_files, run, env=None, race=False, timeout=1800, tags="verif"):
+    """Runs in-package driver tests: the files test_files (paths below harness/overlay/) are injected
+    into the repository package pkg (e.g. "internal/rules/provider/httpendpoint") through go's build
+    overlay, without touching /repo, and `go test -run <run>` is executed there. Returns the output."""
+    overlay = {"Replace": {}}
+    for f in test_files:
+        src = os.path.join(HARNESS, "overlay", f)
+        if not os.path.exists(src):
+            raise Infra("overlay source missing: " + src)
+        overlay["Replace"][os.path.join(REPO, pkg, os.path.basename(f))] = src
+    n = work.next()
+    ov = work.path("overlay%d.json" % n)
+    json.dump(overlay, open(ov, "w"))
+    cmd = ["go", "test", "-tags", tags, "-vet=off", "-count=1", "-overlay", ov, "-run", run,
+           "-timeout", "%ds" % timeout]
+    if race:
+        cmd.append("-race")
+    cmd.append("./" + pkg)
+    e = goenv()
+    e["VERIF_WORK"] = WORKROOT
+    if env:
+        e.update({k: str(v) for k, v in env.items()})
+    p = subprocess.run(cmd, cwd=REPO, env=e, capture_output=True, text=True, timeout=timeout + 300)
+    out = p.stdout + p.stderr
+    if p.returncode != 0 and "--- FAIL" not in out and "DATA RACE" not in out and "panic:" not in out:
+        raise Infra("go test -overlay %s failed (rc=%d):\n%s" % (pkg, p.returncode, out[-6000:]))
+    return p.returncode, out
 
 
 def cleanup_binaries():
@@ -99,6 +127,12 @@ class Work:
             if f.endswith(".tla") or f.endswith(".cfg"):
                 shutil.copy(os.path.join(SPEC, f), self.dir)
         self.n = 0
+        self._lock = threading.Lock()
+
+    def next(self):
+        with self._lock:
+            self.n += 1
+            return self.n
 
     def path(self, name):
         return os.path.join(self.dir, name)
@@ -127,14 +161,14 @@ class TLCResult:
 
 
 def tlc(work, module, cfg=None, env=None, workers=1, timeout=900, extra=None, seed=None, heap=None):
-    work.n += 1
+    n = work.next()
     cfg = cfg or module + ".cfg"
     cmd = ["timeout", str(timeout), "java"]
     if heap:
         cmd.append("-Xmx" + heap)
     cmd += ["-XX:+UseParallelGC", "-Xss64m",
             "-cp", "/opt/veriftools/tla/tla2tools.jar:/opt/veriftools/tla/CommunityModules-deps.jar",
-            "tlc2.TLC", "-workers", str(workers), "-metadir", work.path("md%d" % work.n),
+            "tlc2.TLC", "-workers", str(workers), "-metadir", work.path("md%d" % n),
             "-config", cfg]
     if seed is not None:
         cmd += ["-seed", str(seed)]
@@ -148,7 +182,7 @@ def tlc(work, module, cfg=None, env=None, workers=1, timeout=900, extra=None, se
     p = subprocess.run(cmd, cwd=work.dir, env=e, capture_output=True, text=True)
     res = TLCResult(p.returncode, p.stdout + p.stderr)
     res.wall = time.time() - t0
-    shutil.rmtree(work.path("md%d" % work.n), ignore_errors=True)
+    shutil.rmtree(work.path("md%d" % n), ignore_errors=True)
     if p.returncode == 124:
         raise Infra("TLC timed out on %s/%s" % (module, cfg))
     return res
